@@ -93,29 +93,29 @@ Theorem C03_soft_link_refuted :
   spec_tree (fst (sp h_soft)) = Some (TNode 0 KGroup [(b "d", TNode 1 KData []); (b "s", TNode 2 KSoft [])]).
 Proof. exact soft_link_refuted. Qed.
 Print Assumptions C03_soft_link_refuted.
-(* names_ok / path_ok *)
+(* names_ok / path_ok (gob = the tree before the repairs in notes/fixes; go = the tree as it is) *)
 Theorem C03_empty_name_refuted :
-  all_ok (snd (go h_empty_name)) = true /\
-  group_names (fst (go h_empty_name)) 0 = Some [Some (b "x"); Some (b "x")] /\ ~ NoDup [Some (b "x"); Some (b "x")].
+  all_ok (snd (gob h_empty_name)) = true /\
+  group_names (fst (gob h_empty_name)) 0 = Some [Some (b "x"); Some (b "x")] /\ ~ NoDup [Some (b "x"); Some (b "x")].
 Proof. exact empty_name_refuted. Qed.
 Print Assumptions C03_empty_name_refuted.
 Theorem C03_dataset_root_refuted :
-  all_ok (snd (go h_dataset_root)) = true /\ group_names (fst (go h_dataset_root)) 0 = Some [Some (b "x"); Some (b "x")].
+  all_ok (snd (gob h_dataset_root)) = true /\ group_names (fst (gob h_dataset_root)) 0 = Some [Some (b "x"); Some (b "x")].
 Proof. exact dataset_root_refuted. Qed.
 Print Assumptions C03_dataset_root_refuted.
 Theorem C03_nul_name_refuted :
-  all_ok (snd (go h_nul_name)) = true /\ group_names (fst (go h_nul_name)) 0 = Some [Some (b "a"); Some (b "a")].
+  all_ok (snd (gob h_nul_name)) = true /\ group_names (fst (gob h_nul_name)) 0 = Some [Some (b "a"); Some (b "a")].
 Proof. exact nul_name_refuted. Qed.
 Print Assumptions C03_nul_name_refuted.
 Theorem C03_trailing_slash_refuted :
-  snd (go h_trailing_slash) = [Ok; Err ENoParent; Ok] /\
-  read_tree (fst (go h_trailing_slash)) = Some (TNode 0 KGroup [(b "a", TNode 1 KGroup [(b "b", TNode 3 KGroup [])])]).
+  snd (gob h_trailing_slash) = [Ok; Err ENoParent; Ok] /\
+  read_tree (fst (gob h_trailing_slash)) = Some (TNode 0 KGroup [(b "a", TNode 1 KGroup [(b "b", TNode 3 KGroup [])])]).
 Proof. exact trailing_slash_refuted. Qed.
 Print Assumptions C03_trailing_slash_refuted.
 (* C03_err_unchanged_all does not extend to CreateHardLink *)
 Theorem C03_hardlink_rollback_refuted :
-  let w := fst (go h_rollback) in let w' := fst (step_body go_cfg w o_rollback) in
-  snd (step_body go_cfg w o_rollback) = Err EDup /\
+  let w := fst (gob h_rollback) in let w' := fst (step_body base_cfg w o_rollback) in
+  snd (step_body base_cfg w o_rollback) = Err EDup /\
   option_map refcount (alookup 1 (objects w)) = Some 1 /\ option_map refcount (alookup 1 (objects w')) = Some 2 /\
   ~ same_all (clock w) w w'.
 Proof. exact hardlink_rollback_refuted. Qed.
